@@ -828,6 +828,11 @@ class Unit:
                         term, fr = dec_literal(str(v.args[0].value), v)
                         out[tg.id] = (term, "dec")
                         self.const_values[tg.id] = fr
+                    elif isinstance(v, ast.Call) and getattr(v.func, "id", None) == "Decimal" and len(v.args) == 1 \
+                            and const_value(v.args[0]) is not None:
+                        from fractions import Fraction
+                        out[tg.id] = (f"({const_value(v.args[0])} : Rat)", "dec")       # Decimal(<constant int expression>): exact
+                        self.const_values[tg.id] = Fraction(const_value(v.args[0]))
                     else:
                         raise ShapeError(f"constant {tg.id} is not an int / Decimal literal")
         return out
@@ -948,6 +953,19 @@ DERIBIT_MARKET = Unit("DeribitMarket", "demeter/deribit/market.py", [
 })
 DERIBIT_MARKET.uses = [DERIBIT_HELPER]
 UNITS.append(DERIBIT_MARKET)
+
+
+UNISWAP_HELPER = Unit("UniswapHelper", "demeter/uniswap/helper.py", [
+    ("_from_x96", {"number": I}),
+    ("_to_x96", {"sqrt_price": D}),
+    ("tick_to_sqrt_price_x96", {"tick": I}),
+    ("from_atomic_unit", {"atomic_unit_amount": I, "decimal": I}),
+    ("get_swap_value", {"swap_from_token_val": D, "swap_to_token_val": D, "fee_rate": D, "final_ratio": D}),
+    ("get_swap_value_with_part_balance_used", {"swap_from_token_val": D, "swap_to_token_val": D, "total_val_after": D,
+                                               "fee_rate": D, "final_ratio": D}),
+], consts=("Q96",), prefix="uni_")
+UNISWAP_HELPER.uses = [UNITS[0]]
+UNITS.append(UNISWAP_HELPER)
 
 
 def run(write=True, only=None):
